@@ -2,7 +2,7 @@ from common import ENUMX_ASSUME, splice_qbft
 
 CHECK = dict(
     pkgs=["core/consensus/qbft", "core/qbft"],
-    files={"core/consensus/qbft": ["zz_verif_c04_test.go"]},
+    files={"core/consensus/qbft": ["zz_verif_c04_test.go"], "core/qbft": ["zz_verif_c02_test.go", "zz_verif_hook.go"]},
     libs=["enumx"],
     splice={"core/qbft/qbft.go": splice_qbft},
     run={"core/consensus/qbft": "TestVerifC04", "core/qbft": "TestVerifC04u"},
